@@ -96,6 +96,20 @@ def cases(seed, tier):
                     if not inj[-1]["args"]["after"]:
                         inj[-1]["args"]["after"] = 0.05  # (a flapping signal does not change twice in the same instant either)
                     inj[-1]["args"]["then"] = [[rng.choice([0.05, 0.1, 0.3 * sl, 0.9 * sl, 1.5 * sl]) if sl else rng.choice([0.05, 0.1]), 1], [rng.choice([0.05, 0.2, 1.0, 3.0]), 0]]
+        # the user pauses and resumes around (or inside) the suspension: neither the resume nor the replay it starts may
+        # let a plan message through before the suspender has released
+        if rng.random() < 0.35:
+            for k in range(rng.choice([1, 1, 2])):
+                near = inj[0]["at"]["step"] + rng.randrange(-10, 40) if rng.random() < 0.7 else rng.randrange(0, n + 2)
+                inj.append({"id": f"p{k}", "at": {"step": max(0, near)}, "do": "pause"})
+            decs = []
+            for k in range(6):
+                d = {"do": "resume"}
+                if rng.random() < 0.3:
+                    d["inject"] = [{"id": f"q{k}", "at": {"step": rng.randrange(0, 40)}, "do": "pause"}]
+                decs.append(d)
+            c["script"][ci]["decisions"] = decs
+            c["script"][ci]["final"] = "resume"
         inj.sort(key=lambda x: x["at"]["step"])
         c["script"][ci]["inject"] = inj
         # a Pausable device that refuses to be replayed (pause() raises NoReplayAllowed): the engine then must not
@@ -161,6 +175,16 @@ def check(res):
         helpers = []  # {"sig":..., "start":Ev, "phase": pre|post, "wait_for": Ev|None}
         in_effect = []  # [(sig, start_ev, until_time)]
         for e in evs:
+            if e.kind == "state" and e.d["new"] in ("aborting", "stopping", "halting", "panicked"):
+                # the plan is being ended (here: a pause where there is no checkpoint to resume from): its clean-up
+                # runs although the suspender has not released
+                if helpers or in_effect:
+                    res.notes["ended_while_suspended"] = res.notes.get("ended_while_suspended", 0) + 1
+                helpers, in_effect = [], []
+                continue
+            if e.kind == "call_end" and e.d["api"] in ("call", "resume") and helpers and e.d.get("state") == "paused":
+                res.notes["paused_while_suspended"] = res.notes.get("paused_while_suspended", 0) + 1
+                continue
             if e.kind == "call_end" and e.d["api"] in ("call", "resume") and helpers:
                 out.append(V("call-returned-while-suspended", f"{e.d['api']} returned ({e.d['outcome']}/{e.d['exc']}) while a suspension helper was still on the stack"))
                 helpers = []
